@@ -5,6 +5,7 @@ from ..paths import factmap, call_text, returns, must_call
 from ..callgraph import CallGraph
 from ..absval import EnumEval
 from .c01 import listener_entries, IS_MASTER
+from . import shared
 
 ORDER = ['stop_application_jobs', 'restart_application_jobs', 'restart_process_jobs', 'continue_process_jobs']
 ADDERS = {'stop_application_jobs': 'add_stop_application_job', 'restart_application_jobs': 'add_restart_application_job',
@@ -108,6 +109,8 @@ def run(P, R):
             for c in own_nodes(mn.node))
     R.check(r2, ok, 'every process lost with an instance is handed to add_default_job, then jobs are triggered',
             'dispatch|lost', mn.loc(), '_WorkingState._master_next does not add a default job for every lost process')
+
+    shared.enum_classes(P, R, r2, only=('running_failure_strategy',))
 
     # ---------------------------------------------------------------- R3
     r3 = R.rule('R3', 'precedence matrix', 'with STOP_APPLICATION > RESTART_APPLICATION > RESTART_PROCESS > CONTINUE: each '
